@@ -22,7 +22,7 @@ CLASSES = ["no-source", "missing-source", "dir-without-r", "multi-to-absent", "m
 
 
 def gen_cases(tier, seed):
-    n = 420 if tier == "quick" else 8000
+    n = 880 if tier == "quick" else 8800
     r = random.Random(seed * 86028157 + 16)
     for i in range(n):
         driver = ["parfile", "parblock"][i % 2]
@@ -227,10 +227,14 @@ def gen_cases(tier, seed):
             pass
         drv = [] if cls == "bad-driver" else ["--driver", driver]
         noise = r.choice([[], [], [], ["--fsync"], ["--backup", "numbered"], ["--no-perms"], ["-L"], ["--gitignore"], ["--no-progress"], ["--reflink", "never"]])
+        if cls in ("noclobber-force", "T-with-target-directory", "bad-driver", "bad-backup", "bad-blocksize", "bad-workers") and r.random() < 0.4:
+            noise = ["--reflink", "never"]      # (an option that is looked at in the same place as the contradictory ones)
         if cls in ("bad-backup", "bad-reflink") and noise and noise[0] in ("--backup", "--reflink"):
             noise = []
         if cls == "same-as-dest" and locals().get("which") == "inside" and noise == ["--gitignore"]:
             noise = []
+        if cls == "nondir-onto-dir-mapped" and noise == ["-L"]:
+            noise = []      # (followed, a link to a directory is a directory: a valid copy)
         wopt = [] if cls == "bad-workers" else ["-w", str(r.choice([0, 1, 4]))]
         args = drv + wopt + opts + noise + srcs + ([dest] if dest is not None else [])
         yield {"spec": spec, "pre": pre, "args": args, "driver": driver, "cls": cls + (":directory-into-itself" if cls == "same-as-dest" and which == "inside" else ""), "pos": pos if cls in ("missing-source", "dir-without-r", "dir-onto-file-mapped", "bad-glob", "dangling-source", "nondir-onto-dir-mapped") else -1,
